@@ -25,7 +25,8 @@ inductive Step
   | copyBoth          -- t = copy.copy(self.t); x = copy.copy(self.x)
   | noCopy            -- (what a missing defensive copy would be: t = self.t; x = self.x)
   | maskBoth          -- t, x = t[i], x[i]        (boolean-mask indexing allocates)
-  | timeFromArg       -- t = resample            (the caller's array)
+  | timeFromArg       -- t = resample            (the caller's array itself: the code before the F55 repair)
+  | timeCopyOfArg     -- t = np.array(resample)  (a copy of the caller's array)
   | timeNew           -- t = new_timearray(...)  (np.linspace)
   | interpX           -- x = self.interpolate(t) (interp1d returns a new array)
   | libX              -- x = taper(x)/filter(x)/smooth(x): library call returning a new array
@@ -38,6 +39,7 @@ def exec (e : Env) : Step → Env × Option Tag
   | .noCopy => (⟨.stored, .stored⟩, none)
   | .maskBoth => (⟨.fresh, .fresh⟩, none)
   | .timeFromArg => (⟨.arg, e.x⟩, none)
+  | .timeCopyOfArg => (⟨.fresh, e.x⟩, none)
   | .timeNew => (⟨.fresh, e.x⟩, none)
   | .interpX => (⟨e.t, .fresh⟩, none)
   | .libX => (⟨e.t, .fresh⟩, none)
@@ -67,7 +69,7 @@ deriving DecidableEq, Repr
 def getProgram (o : Opts) : List Step :=
   [.copyBoth] ++ (if o.twin then [.maskBoth] else []) ++
   (match o.resample with
-    | .array => [.timeFromArg, .interpX]
+    | .array => [.timeCopyOfArg, .interpX]
     | .step => [.timeNew, .interpX]
     | .none => if o.filter && o.uniformise then [.timeNew, .interpX] else []) ++
   (if o.taper then [.libX] else []) ++ (if o.filter then [.libX] else []) ++ (if o.smooth then [.libX] else [])
